@@ -463,6 +463,13 @@ class _ConstantOnly(ValueError):
     pass
 
 
+def _is_view_descendant(base: "Tensor", t: "Tensor") -> bool:
+    """Returns True if `t` is reachable from `base` through tracked view-children."""
+    return any(
+        child is t or _is_view_descendant(child, t) for child in base._view_children
+    )
+
+
 def _as_constant_array(t: Union["Tensor", np.ndarray]) -> np.ndarray:
     """Passes through all non-tensor objects and constant tensors. Raises on
     non-constant tensors."""
@@ -1686,8 +1693,16 @@ class Tensor:
         # We must do this here up front since we need to consume information
         # about ``self``
         self.null_grad(_clear_view_info=True)
-        if self._base is not None and not self._base._view_children:
+        if self._base is not None and not _is_view_descendant(self._base, self):
+            # `self` is no longer among the tracked views of its base (the base's
+            # graph was cleared); it is updated as a tensor that owns its data
             self._base = None
+            if self._creator is not None:
+                # its former view-parent must not re-create it as a view later
+                for parent in self._creator.variables:
+                    parent._view_children = WeakRefIterable(
+                        [c for c in parent._view_children if c is not self]
+                    )
 
         if self._base is not None:
             # the base is mutated by this op too; its gradient is stale
